@@ -176,4 +176,32 @@ func directed(b *harness.B) {
 			s = next
 		}
 	}
+	// (5) the ASIC hardfork inside the v2 window, with a reset time below one second (a fast development network that
+	// scales the reset to its block time): the reset installs the only sub-second OakTime there is, and the v2
+	// retarget divides by OakTime in whole seconds. Headers on schedule from genesis past the reset: applying an
+	// accepted header never fails.
+	for _, oak := range []time.Duration{400 * time.Millisecond, 999 * time.Millisecond, time.Nanosecond} {
+		n := directedNet(10 * time.Minute)
+		n.HardforkOak.Height, n.HardforkOak.FixHeight = 2, 3
+		n.HardforkV2.AllowHeight, n.HardforkV2.RequireHeight, n.HardforkV2.FinalCutHeight = 5, 30, 40
+		n.HardforkASIC.Height, n.HardforkASIC.OakTime, n.HardforkASIC.NonceFactor = 9, oak, 1
+		g := n.HardforkOak.GenesisTimestamp
+		s := consensus.ApplyHeader(n.GenesisState(), types.BlockHeader{Timestamp: g}, time.Time{})
+		for s.Index.Height < 14 {
+			bh, ok := mineHeader(s, g.Add(time.Duration(s.Index.Height+1)*n.BlockInterval))
+			if !ok {
+				b.Inconclusive("directed ASIC-reset-in-the-v2-window history: no valid header found")
+				break
+			}
+			next, p := applyGuarded(s, bh, g)
+			b.Eval(1)
+			b.Count("directed_asic_reset_in_the_v2_window_steps", 1)
+			b.Distinct("directed", "asic-reset-in-v2-window", oak, next.Index.Height)
+			if p != nil {
+				b.Violate("C13/ApplyHeader/asic-reset-in-the-v2-window/panic", fmt.Sprintf("with the ASIC hardfork at height %d inside the v2 window and a reset time of %v, applying the accepted header of height %d panicked: %v", n.HardforkASIC.Height, oak, s.Index.Height+1, p), map[string]any{"height": s.Index.Height + 1, "oak_time": oak.String()})
+				break
+			}
+			s = next
+		}
+	}
 }
